@@ -225,6 +225,8 @@ type Exec struct {
 	globalsSeen     map[string]*Term
 	epoch           int
 	usePow2         bool
+	lemmaFacts      []*Term // instances of proved lemmas met while instantiating another lemma
+	curCall         ssa.Value
 	usedLemmas      map[string]bool
 	defFacts        map[*Term]bool
 	entry           map[string]Value
